@@ -1,20 +1,341 @@
-//! C20 — not implemented yet (stub).
+//! C20 — evaluation is deterministic and contexts/realms are isolated from each other:
+//! trace(P | H) = trace(P | nothing) for prior histories H on the same thread, across processes,
+//! and cross-realm objects keep their own realm's intrinsics (V8 as reference for realm programs).
 
 use crate::driver::{CaseOut, Env, Prop, Stream, Tier};
+use crate::genp::{order, prog, wild};
+use crate::oracle::Server;
+use crate::run::{Completion, RunCfg, Trace, apply_cfg, classify, diff_traces, install_print, panic_signature, run, run_with, take_last_panic};
+use crate::tape::Tape;
+use boa_engine::{Context, JsResult, JsValue, NativeFunction, Source, js_string, realm::Realm};
+use boa_gc::{Finalize, Trace as GcTrace};
+use serde_json::json;
+use std::cell::RefCell;
 
 pub struct C20;
+
+fn cfg() -> RunCfg {
+    RunCfg { loop_limit: 200_000, ..RunCfg::default() }
+}
+
+thread_local! {
+    static TRACER: RefCell<Option<Server>> = const { RefCell::new(None) };
+}
+
+/// trace of `src` computed by ANOTHER process (different ASLR, hash seeds, environment size)
+fn trace_other_process(src: &str, salt: u64) -> Result<String, String> {
+    TRACER.with(|t| {
+        let mut t = t.borrow_mut();
+        if t.is_none() {
+            let exe = std::env::current_exe().map_err(|e| e.to_string())?;
+            // a different environment size shifts the initial stack; allocations differ too
+            let s = Server::spawn(&["env".into(), format!("BV_PAD={}", "x".repeat((salt % 3000) as usize)), exe.to_string_lossy().to_string(), "tracer".into()]).map_err(|e| e.to_string())?;
+            *t = Some(s);
+        }
+        let v = t.as_mut().unwrap().call(json!({"src": src}))?;
+        Ok(v["trace"].as_str().unwrap_or("").to_string())
+    })
+}
+
+/// `bv tracer`: JSON lines {id, src} -> {id, trace}
+pub fn tracer_main() {
+    use std::io::{BufRead, Write};
+    // perturb the allocation history of this process
+    let _junk: Vec<Vec<u8>> = (0..(std::process::id() % 97)).map(|i| vec![0u8; 1000 + i as usize * 37]).collect();
+    let stdin = std::io::stdin();
+    let stdout = std::io::stdout();
+    for line in stdin.lock().lines() {
+        let Ok(line) = line else { break };
+        let Ok(v) = serde_json::from_str::<serde_json::Value>(&line) else { continue };
+        let src = v["src"].as_str().unwrap_or("");
+        let t = run_p(src);
+        let mut so = stdout.lock();
+        let _ = writeln!(so, "{}", json!({"id": v["id"], "trace": t.render()}));
+        let _ = so.flush();
+    }
+}
+
+#[derive(GcTrace, Finalize, Clone)]
+struct RealmBox {
+    realm: Realm,
+}
+
+fn new_realm_native(_this: &JsValue, _args: &[JsValue], ctx: &mut Context) -> JsResult<JsValue> {
+    // returns a function evaluating source text in a fresh realm of this context
+    let realm = ctx.create_realm()?;
+    let old = ctx.enter_realm(realm.clone());
+    install_print(ctx);
+    ctx.enter_realm(old);
+    let f = NativeFunction::from_copy_closure_with_captures(
+        |_this, args, cap: &RealmBox, ctx| {
+            let src = args.first().cloned().unwrap_or_default().to_string(ctx)?.to_std_string_escaped();
+            let old = ctx.enter_realm(cap.realm.clone());
+            let r = ctx.eval(Source::from_bytes(src.as_bytes()));
+            ctx.enter_realm(old);
+            r
+        },
+        RealmBox { realm },
+    );
+    Ok(boa_engine::object::FunctionObjectBuilder::new(ctx.realm(), f).name(js_string!("evalInRealm")).length(1).build().into())
+}
+
+fn install_realm_api(ctx: &mut Context) {
+    ctx.register_global_builtin_callable(js_string!("newRealm"), 0, NativeFunction::from_fn_ptr(new_realm_native)).expect("newRealm");
+}
+
+fn run_p(src: &str) -> Trace {
+    run_with(src, &cfg(), install_realm_api)
+}
+
+/// Run `history` programs in other contexts (dropped before), then P on a fresh context.
+fn run_after_contexts(history: &[String], p: &str) -> Trace {
+    for h in history {
+        let _ = run_with(h, &cfg(), install_realm_api);
+    }
+    run_p(p)
+}
+
+/// Sabotage realm A of a context, then run P in a fresh realm B of the SAME context.
+fn run_in_second_realm(sabotage: &str, p: &str) -> Trace {
+    crate::run::install_panic_hook();
+    crate::run::PRINTS.with(|x| x.borrow_mut().clear());
+    let c = cfg();
+    let res = std::panic::catch_unwind(std::panic::AssertUnwindSafe(|| {
+        let mut ctx = Context::default();
+        install_print(&mut ctx);
+        apply_cfg(&mut ctx, &c);
+        let _ = ctx.eval(Source::from_bytes(sabotage.as_bytes()));
+        let _ = ctx.run_jobs();
+        crate::run::PRINTS.with(|x| x.borrow_mut().clear());
+        let realm = match ctx.create_realm() {
+            Ok(r) => r,
+            Err(e) => return crate::run::throw_class(&e),
+        };
+        ctx.enter_realm(realm);
+        install_print(&mut ctx);
+        install_realm_api(&mut ctx);
+        let r = ctx.eval(Source::from_bytes(p.as_bytes()));
+        let mut comp = classify(&r, p);
+        if let Err(e) = ctx.run_jobs() {
+            let c2 = crate::run::throw_class(&e);
+            if c2.is_internal_failure() || c2.is_limit() {
+                comp = c2;
+            }
+        }
+        comp
+    }));
+    let completion = match res {
+        Ok(c) => c,
+        Err(_) => Completion::Panic(panic_signature(&take_last_panic().unwrap_or_default())),
+    };
+    let prints = crate::run::PRINTS.with(|x| std::mem::take(&mut *x.borrow_mut()));
+    Trace { prints, completion }
+}
+
+const REALM_VALUES: &[&str] = &[
+    "[1, 2, 3]", "({ a: 1 })", "function f(x) { return x + 1 }", "(() => 7)", "new Error('e')", "new TypeError('t')", "Promise.resolve(5)", "new Map([[1, 2]])", "/re/g",
+    "class C { static s() { return 1 } m() { return 2 } }", "(function () { return arguments })(1, 2)", "new Uint8Array([1, 2])", "Symbol.for('shared')", "Symbol.iterator", "new Date(0)",
+    "(function* () { yield 1 })()", "Object.create(null)", "[1, [2, [3]]]", "function f() { 'use strict'; return this }", "function f() { return this }", "(function () { return function g() { return new TypeError('x') } })()",
+    "new Proxy([], {})", "Array", "Object.prototype", "JSON", "(async function () {})", "new Set([1])", "BigInt(5)", "'str'", "function thrower() { null.x }", "Array.prototype.map", "Function.prototype.call",
+];
+const REALM_PROBES: &[&str] = &[
+    "Object.getPrototypeOf(X) === Array.prototype", "X instanceof Array", "Array.isArray(X)", "X instanceof Object", "X instanceof Function", "X instanceof Error", "typeof X",
+    "X && X.constructor === Array", "X && X.constructor === Object", "X && X.constructor === Function", "Object.prototype.toString.call(X)", "X && X.constructor && X.constructor.name",
+    "(function () { try { return X() } catch (e) { return e instanceof TypeError ? 'own TypeError' : (e && e.constructor && e.constructor.name === 'TypeError') ? 'foreign TypeError' : 'other' } })()",
+    "(function () { try { return typeof X() } catch (e) { return 'threw ' + (e instanceof Error) } })()",
+    "(function () { try { var r = new X(2); return [r instanceof Array, Array.isArray(r), r instanceof X] } catch (e) { return 'threw ' + (e instanceof TypeError) } })()",
+    "(function () { try { if (!Array.isArray(X)) return 'not an array'; var r = X.map(function (v) { return v }); return [r instanceof Array, Array.isArray(r), Object.getPrototypeOf(r) === Array.prototype] } catch (e) { return 'threw ' + (e instanceof TypeError) } })()",
+    "(function () { try { var r = Array.prototype.concat.call(X, [9]); return [r instanceof Array, r.length] } catch (e) { return 'threw' } })()",
+    "(function () { try { var r = Array.from(X); return [r instanceof Array, r.length] } catch (e) { return 'threw ' + (e instanceof TypeError) } })()",
+    "(function () { try { var r = X.then(function (v) { print('then', v) }); return [r instanceof Promise, Object.getPrototypeOf(r) === Promise.prototype] } catch (e) { return 'threw ' + (e instanceof TypeError) } })()",
+    "(function () { try { return Promise.resolve(X) === X } catch (e) { return 'threw' } })()",
+    "X === Symbol.iterator", "X === Symbol.for('shared')", "(function () { try { return Function.prototype.call.call(X, null, 3) === globalThis } catch (e) { return 'threw ' + (e instanceof TypeError) } })()",
+    "(function () { try { return X.call(undefined) === globalThis } catch (e) { return 'threw' } })()", "(function () { try { return X.call([5, 6], function (v) { return v * 2 }) instanceof Array } catch (e) { return 'threw ' + (e instanceof TypeError) } })()",
+    "JSON.stringify(X)", "(function () { try { return structuredCloneMissing } catch (e) { return e instanceof ReferenceError } })()",
+    "(function () { try { return Object.getPrototypeOf(Object.getPrototypeOf(X)) === Object.prototype } catch (e) { return 'threw' } })()",
+];
+
+fn realm_program(t: &mut Tape<'_>) -> String {
+    let mut s = String::from(prog::PRELUDE);
+    s.push_str("var other = newRealm();\n");
+    let n = 2 + t.below(5);
+    for i in 0..n {
+        let v = *t.pick(REALM_VALUES);
+        let dir = t.below(3);
+        match dir {
+            0 => s.push_str(&format!("var X = other({});\n", js_str(&format!("({v})")))),
+            1 => {
+                // value of THIS realm observed from the other realm
+                s.push_str(&format!("var X = ({v});\nother('var probe = function (X) {{ return [typeof X, X instanceof Object, X instanceof Array, Array.isArray(X), Object.getPrototypeOf(Object(X)) === Object.getPrototypeOf(Object(X)).constructor.prototype] }}');\nprint('case {i} from-here', show(other('probe')(X)));\n"));
+            }
+            _ => {
+                // isolation: mutate intrinsics in the other realm, observe here
+                let m = *t.pick(&[
+                    "Array.prototype.foo = 1; Object.prototype[0] = 'z'; Array.prototype[Symbol.iterator] = null;",
+                    "Object.freeze(Object.prototype); delete Array.prototype.map; Promise.prototype.then = 5;",
+                    "globalThis.leak = 1; var leak2 = 2; Object.defineProperty(Object.prototype, 'q', { get() { return 'q' } });",
+                    "Symbol.for('shared').description; Function.prototype.call = null; String.prototype.trim = function () { return 'T' };",
+                ]);
+                s.push_str(&format!("other({});\nprint('case {i} isolation', typeof [].foo, ({{}})[0], typeof [].map, typeof Promise.prototype.then, typeof leak, typeof leak2, ({{}}).q, ' x '.trim(), [...[1, 2]].length, Object.isFrozen(Object.prototype));\nvar X = other('[1]');\n", js_str(m)));
+            }
+        }
+        let k = 2 + t.below(5);
+        for _ in 0..k {
+            let p = *t.pick(REALM_PROBES);
+            s.push_str(&format!("try {{ print('case {i}', show({p})); }} catch (e) {{ print('case {i} probe threw', e instanceof Error); }}\n"));
+        }
+    }
+    s
+}
+
+fn js_str(s: &str) -> String {
+    let mut o = String::from("'");
+    for c in s.chars() {
+        match c {
+            '\'' => o.push_str("\\'"),
+            '\\' => o.push_str("\\\\"),
+            '\n' => o.push_str("\\n"),
+            c => o.push(c),
+        }
+    }
+    o.push('\'');
+    o
+}
+
+/// V8 side of `newRealm`: provided by a prelude that uses the oracle's `__newContext` hook.
+fn node_realm_script(server: &mut Server, src: &str) -> Result<(Vec<String>, String), String> {
+    let v = server.call(json!({"kind":"script","src":src,"timeout":5000,"realm_api":true}))?;
+    let prints = v["prints"].as_array().map(|a| a.iter().map(|x| x.as_str().unwrap_or("").to_string()).collect()).unwrap_or_default();
+    Ok((prints, v["completion"].as_str().unwrap_or("").to_string()))
+}
+
+impl C20 {
+    fn check_determinism(&self, src: &str, tape: &[u8], observations: usize, labels: Vec<&'static str>) -> CaseOut {
+        let base = run_p(src);
+        if base.completion.is_limit() {
+            return CaseOut::skip(src.to_string(), "boa-limit");
+        }
+        if let Completion::Panic(_) = base.completion {
+            // C02's business; determinism of a crash is not claimed
+            return CaseOut::skip(src.to_string(), "panics (C02)");
+        }
+        // (a) again, same process
+        let again = run_p(src);
+        if let Some((sig, d)) = diff_traces("first", &base, "second-run", &again) {
+            return CaseOut::fail(src.to_string(), format!("repeat: {sig}"), d);
+        }
+        let mut t = Tape::new(tape);
+        // (b) other contexts first
+        let k = 1 + t.below(3);
+        let mut hist = vec![];
+        for i in 0..k {
+            let part = &tape[(i * 40).min(tape.len())..];
+            hist.push(match t.below(3) {
+                0 => order::generate(part).0,
+                1 => wild::generate(part).src,
+                _ => prog::generate(part, prog::Opts::core()).src,
+            });
+        }
+        let after = run_after_contexts(&hist, src);
+        if let Some((sig, d)) = diff_traces("fresh-thread-state", &base, "after-other-contexts", &after) {
+            return CaseOut::fail(src.to_string(), format!("after-contexts: {sig}"), d);
+        }
+        // (c) sabotage in another context first
+        let after = run_after_contexts(&[order::SABOTAGE.to_string()], src);
+        if let Some((sig, d)) = diff_traces("fresh-thread-state", &base, "after-sabotaged-context", &after) {
+            return CaseOut::fail(src.to_string(), format!("after-sabotage-context: {sig}"), d);
+        }
+        // (d) sabotage in another realm of the same context
+        let after = run_in_second_realm(order::SABOTAGE, src);
+        if let Some((sig, d)) = diff_traces("fresh-context", &base, "fresh-realm-after-sabotaged-realm", &after) {
+            return CaseOut::fail(src.to_string(), format!("after-sabotage-realm: {sig}"), d);
+        }
+        // (e) another process
+        match trace_other_process(src, t.u16() as u64) {
+            Ok(other) => {
+                if other != base.render() {
+                    return CaseOut::fail(src.to_string(), "other-process: traces differ", format!("--- this process\n{}\n--- other process\n{other}", base.render()));
+                }
+            }
+            Err(e) => return CaseOut::skip(src.to_string(), format!("tracer-unavailable: {e}")),
+        }
+        CaseOut::pass(src.to_string(), observations >= 3).with_labels(labels)
+    }
+
+    fn check_realm(&self, env: &mut Env, src: &str) -> CaseOut {
+        let boa = run_p(src);
+        let node = match env.node() {
+            Ok(n) => n,
+            Err(e) => return CaseOut::skip(src.to_string(), format!("oracle-unavailable: {e}")),
+        };
+        let (np, nc) = match node_realm_script(node, src) {
+            Ok(x) => x,
+            Err(e) => return CaseOut::skip(src.to_string(), format!("oracle-error: {e}")),
+        };
+        let v8 = Trace { prints: np, completion: Completion::Value(String::new()) };
+        if boa.prints != v8.prints || boa.completion.render() != nc {
+            let k = boa.prints.iter().zip(v8.prints.iter()).position(|(a, b)| a != b).unwrap_or(0);
+            let line = boa.prints.get(k).cloned().unwrap_or_default();
+            let probe: String = line.split(' ').take(2).collect::<Vec<_>>().join(" ");
+            return CaseOut::fail(src.to_string(), format!("realm: boa differs from V8 ({probe})"), format!("--- boa\n{}\n--- v8\n{}\n=> {nc}", boa.render(), v8.prints.join("\n")));
+        }
+        // isolation also against the second-realm history
+        let again = run_in_second_realm(order::SABOTAGE, src);
+        if let Some((sig, d)) = diff_traces("fresh-context", &boa, "fresh-realm-after-sabotaged-realm", &again) {
+            return CaseOut::fail(src.to_string(), format!("realm after-sabotage-realm: {sig}"), d);
+        }
+        CaseOut::pass(src.to_string(), boa.prints.len() >= 4).with_labels(vec!["cross-realm"])
+    }
+}
 
 impl Prop for C20 {
     fn id(&self) -> &'static str {
         "C20"
     }
-    fn streams(&self, _tier: Tier) -> Vec<Stream> {
-        vec![]
+    fn streams(&self, tier: Tier) -> Vec<Stream> {
+        let m = if tier == Tier::Quick { 1 } else { 40 };
+        vec![
+            Stream::new("order", 1500 * m, 400).batch(50),
+            Stream::new("core", 800 * m, 700).batch(50),
+            Stream::new("wild", 700 * m, 200).batch(50),
+            Stream::new("realm", 1500 * m, 200).batch(100),
+        ]
     }
     fn rule(&self) -> String {
-        "stub".into()
+        "determinism streams (order = programs observing property/Map/Set/JSON/sort/template/name order after random inserts and deletes; core = gen::prog; wild = random builtin calls): each program P is run (a) twice on fresh contexts, (b) after 1-3 other contexts ran random programs and were dropped, (c) after another context was sabotaged (every configurable builtin reachable from its global deleted/overwritten/frozen/re-prototyped), (d) in a fresh realm of a context whose first realm was sabotaged, (e) in another process (different ASLR, hash seeds, environment size); all traces must be byte-identical. realm stream: programs that create a second realm through a host newRealm() (test262-style evalScript), pass values across in both directions and probe instanceof/prototype identity/species/thrown-error realm/this-binding, plus intrinsic mutations in one realm observed from the other; boa's trace must equal V8's (vm contexts) and be unaffected by a sabotaged sibling realm. Non-trivial = >= 3 order-sensitive observations (determinism) / >= 4 probe lines (realm); distinct = distinct source".into()
     }
-    fn run_case(&self, _env: &mut Env, _stream: &str, _index: u64, _tape: &[u8]) -> CaseOut {
-        CaseOut::skip(String::new(), "stub")
+    fn assumptions(&self) -> Vec<String> {
+        vec!["programs avoid Math.random, Date.now, performance, locale".into()]
+    }
+    fn run_case(&self, env: &mut Env, stream: &str, _index: u64, tape: &[u8]) -> CaseOut {
+        match stream {
+            "order" => {
+                let (src, obs) = order::generate(tape);
+                self.check_determinism(&src, tape, obs, vec!["order-program"])
+            }
+            "core" => {
+                let p = prog::generate(tape, prog::Opts::core());
+                self.check_determinism(&p.src, tape, 3, vec!["core-program"])
+            }
+            "wild" => {
+                let w = wild::generate(tape);
+                self.check_determinism(&w.src, tape, w.calls, vec!["wild-program"])
+            }
+            _ => {
+                let mut t = Tape::new(tape);
+                let src = realm_program(&mut t);
+                self.check_realm(env, &src)
+            }
+        }
+    }
+    fn run_rendered(&self, env: &mut Env, stream: &str, rendered: &str) -> Option<CaseOut> {
+        if stream == "realm" {
+            Some(self.check_realm(env, rendered))
+        } else {
+            Some(self.check_determinism(rendered, rendered.as_bytes(), 3, vec![]))
+        }
+    }
+    fn rendered_prefix_lines(&self, _r: &str) -> usize {
+        0
     }
 }
